@@ -6,6 +6,7 @@ import (
 	"fmt"
 	"io"
 	"net/http"
+	"sync"
 
 	"github.com/formancehq/go-libs/v5/pkg/transport/api"
 
@@ -17,6 +18,10 @@ import (
 func importLogs(w http.ResponseWriter, r *http.Request) {
 
 	stream := make(chan ledger.Log)
+	// Whatever the way out of this handler (cut or malformed body, client gone, import error), the
+	// import goroutine must see the end of the stream: it holds the ledger lock until it returns.
+	closeStream := sync.OnceFunc(func() { close(stream) })
+	defer closeStream()
 	errChan := make(chan error, 1)
 	go func() {
 		err := common.LedgerFromContext(r.Context()).Import(r.Context(), stream)
@@ -38,7 +43,7 @@ func importLogs(w http.ResponseWriter, r *http.Request) {
 		l := ledger.Log{}
 		if err := dec.Decode(&l); err != nil {
 			if errors.Is(err, io.EOF) {
-				close(stream)
+				closeStream()
 				// Block on the import goroutine's result — it is
 				// authoritative once the stream is closed.
 				if err := <-errChan; err != nil {
